@@ -181,7 +181,7 @@ def run_scenario(sc, d: Path | None = None, *, shims: bool = True, probe_fracs=(
                  write: bool = True, warm_file: str | None = None,
                  out_name: str | None = None, stop=None, cfg_edit=None,
                  spelling: str | None = None, cfg_name: str = "ladim",
-                 max_steps: int | None = None) -> Run:
+                 max_steps: int | None = None, record: bool | None = None) -> Run:
     """Write the world of a scenario (unless write=False) and run LADiM on it"""
     own = d is None
     if own:
@@ -193,7 +193,8 @@ def run_scenario(sc, d: Path | None = None, *, shims: bool = True, probe_fracs=(
     if cfg_edit is not None:
         cfg = cfg_edit(cfg) or cfg
     path = world.write_config(cfg, d, spelling or sc.get("spelling", "yaml2"), cfg_name)
-    rec = recorder.Recorder(probe_fracs=probe_fracs, snap=snap, monitors=monitors) if shims else None
+    # record=True with shims=False: a recorder that must stay empty (no plug-in of the harness is configured)
+    rec = recorder.Recorder(probe_fracs=probe_fracs, snap=snap, monitors=monitors) if (shims or record) else None
     run = run_config(path, rec=rec, rng_seed=rng_seed, crash_after=crash_after,
                      use_main=use_main, max_steps=max_steps)
     run.dir = d
